@@ -1,6 +1,16 @@
 """C17 bounded stand-in: the real `full_ln` on small charts of every game against an oracle written from the
 property statement (one note per input note; per column every note but the last becomes a hold ending `gap`
-before the next note when that leaves at least the threshold, else a hit; the last keeps kind and length)."""
+before the next note when that leaves at least the threshold, else a hit; the last keeps kind and length).
+
+Dimensions of a case besides the notes (all fields of the JSON case, none enters a clause id):
+  call    how gap / threshold reach full_ln: positional, keyword, left out (the documented defaults gap=150,
+          ln_as_hit_thres=100 - all three / gap only / threshold only), numpy scalars, float-typed whole numbers
+  labels  per list (hits, holds, tempo list, SV list): row labels 0..n-1, permuted (.sorted()), reversed ([::-1]),
+          offset (first row sliced off), gappy (rows filtered out by a mask) - the list CONTENT is that of the case
+  tempo / svs   the tempo list and the SV list empty, one row, two rows in time order / not in time order / at the same time
+  ints    all times and lengths python ints (int64 columns)
+  then    a second call in the same process: on the RESULT of the first (chain) or on the same input object again
+"""
 from __future__ import annotations
 
 from collections import Counter
@@ -12,9 +22,18 @@ from pyvc.bounded import replayer
 # times are dyadic rationals, so every float difference below is exact and Fraction(float) is the written value
 GRID_A = [0.0, 100.0, 250.0, 300.0]          # differences 50, 100, 150, 200, 250, 300: every gap+threshold sum is met exactly
 GRID_B = [-50.0, 0.0, 100.5, 300.25]         # negative and fractional times
+GRID_C = [-1000000000.0, 3600000.0, 3600100.0, 1000000000.0, 1000000000.5, 1000000150.5]   # very large / very negative, neighbours 100, 0.5, 150 apart
+GRID_D = [0.0, 50.0, 100.0, 150.0, 250.0, 300.0, 400.0, 550.0, 700.0, 1000.0]               # long columns
+GRID_I = [0, 100, 250, 300, -50, 450]        # python ints: int64 columns
 SETTINGS = [0, 50, 100, 150]
-HOLD_LENGTHS = [30.0, 120.0, 400.0]          # shorter than any step, in between, reaching over later notes
+SETTINGS_F = [0.5, 50.25, 100.0, 149.75, 99.5, 1000.0, 1e9]   # fractional (dyadic, met exactly by GRID_B: 100.5 = 0.5 + 100 = 50.25 + 50.25, 199.75 = 149.75 + 50), float-typed whole, larger than every step
+HOLD_LENGTHS = [30.0, 120.0, 400.0, 0.0]     # shorter than any step, in between, reaching over later notes, zero length
+HOLD_LENGTHS_I = [30, 120, 400, 0]
 GAMES = ["osu", "sm", "bms", "o2j", "base", "qua"]
+DEFAULT_GAP, DEFAULT_THRES = 150, 100        # the documented signature: full_ln(m, gap=150, ln_as_hit_thres=100)
+CALLS = ["kw", "defaults", "gap_only", "thres_only", "np", "pos_float"]
+LABELS = ["sorted", "reversed", "offset", "gappy"]
+TEMPO = ["none", "one", "tied", "unordered"]
 
 
 def _game(game):
@@ -37,24 +56,52 @@ def _game(game):
     return M, {}
 
 
+def _mk(cls, items, mode):
+    """A list of class `cls` with exactly `items` as rows (in this order, except for 'sorted' / 'reversed') and
+    the row labels of `mode`, obtained through public list operations only."""
+    import numpy as np
+
+    if not items or mode in (None, "default"):
+        return cls(items)
+    if mode == "sorted":          # rows in time order, labels permuted
+        return cls(items).sorted()
+    if mode == "reversed":        # rows reversed, labels n-1..0
+        return cls(items)[::-1]
+    if mode == "offset":          # labels 1..n: a leading row sliced off
+        return cls([items[0]] + items)[1:]
+    if mode == "gappy":           # labels with gaps: every other row (copies of the first item) filtered out by a mask
+        rows, keep = [], []
+        for it in items:
+            rows += [items[0], it]
+            keep += [False, True]
+        return cls(rows)[np.array(keep)]
+    raise ValueError(mode)
+
+
 def _build(case):
-    """Chart of the case: hits / holds in the written list order, two tempo points, and rows in every other list
+    """Chart of the case: hits / holds in the written list order, a tempo list, and rows in every other list
     the game has (SVs, stops; with `extras` also SM mines / rolls / lifts / fakes)."""
     M, kw = _game(case["game"])
     m = M()
+    lab = case.get("labels") or {}
     H, L, B = type(m.hits)._item_class(), type(m.holds)._item_class(), type(m.bpms)._item_class()
-    m.hits = type(m.hits)([H(offset=t, column=c, **kw) for t, c in case["hits"]])
-    m.holds = type(m.holds)([L(offset=t, column=c, length=ln, **kw) for t, c, ln in case["holds"]])
-    m.bpms = type(m.bpms)([B(offset=-50.0, bpm=120.0), B(offset=250.0, bpm=177.5)])
+    m.hits = _mk(type(m.hits), [H(offset=t, column=c, **kw) for t, c in case["hits"]], lab.get("hits"))
+    m.holds = _mk(type(m.holds), [L(offset=t, column=c, length=ln, **kw) for t, c, ln in case["holds"]], lab.get("holds"))
+    tempo = dict(two=[(-50.0, 120.0), (250.0, 177.5)], none=[], one=[(0.0, 150.0)], tied=[(100.0, 120.0), (100.0, 240.0), (100.0, 60.0)],
+                 unordered=[(250.0, 177.5), (-50.0, 120.0), (100.0, 90.0)])[case.get("tempo", "two")]
+    m.bpms = _mk(type(m.bpms), [B(offset=t, bpm=b) for t, b in tempo], lab.get("bpms"))
     if hasattr(m, "svs"):
         S = type(m.svs)._item_class()
-        m.svs = type(m.svs)([S(offset=100.0, multiplier=0.5), S(offset=100.0, multiplier=2.0)])
+        svs = dict(two=[(100.0, 0.5), (100.0, 2.0)], none=[], one=[(0.0, 1.5)], tied=[(100.0, 0.5), (100.0, 2.0), (100.0, 0.5)],
+                   unordered=[(300.0, 0.5), (100.0, 2.0), (200.0, 1.0)])[case.get("svs", "two")]
+        m.svs = _mk(type(m.svs), [S(offset=t, multiplier=x) for t, x in svs], lab.get("svs"))
     if case["game"] == "sm":
         from reamber.sm import SMStop, SMMine, SMRoll, SMLift, SMFake
         from reamber.sm.lists import SMStopList
         from reamber.sm.lists.notes import SMMineList, SMRollList, SMLiftList, SMFakeList
 
-        m.stops = SMStopList([SMStop(offset=100.0, length=25.0)])
+        if case.get("tempo", "two") != "none":
+            m.stops = SMStopList([SMStop(offset=100.0, length=25.0)])
         ex = case.get("extras") or {}
         if ex.get("mines"):
             m.mines = SMMineList([SMMine(offset=t, column=c) for t, c in ex["mines"]])
@@ -64,7 +111,7 @@ def _build(case):
             m.lifts = SMLiftList([SMLift(offset=t, column=c) for t, c in ex["lifts"]])
         if ex.get("fakes"):
             m.fakes = SMFakeList([SMFake(offset=t, column=c) for t, c in ex["fakes"]])
-    if case["game"] == "osu":
+    if case["game"] == "osu" and case.get("tempo", "two") != "none":
         from reamber.osu.OsuSample import OsuSample
         from reamber.osu.lists.OsuSampleList import OsuSampleList
 
@@ -125,18 +172,69 @@ def _accepted(col_notes, gap, thres):
     return alts
 
 
-def _run_case(case):
+def _call(m, gap, thres, how):
+    """The real call in the form `how`; (gap, thres) are the values the statement's rule is evaluated with."""
+    import numpy as np
     from reamber.algorithms.generate import full_ln
 
+    if how == "kw":
+        return full_ln(m, ln_as_hit_thres=thres, gap=gap)
+    if how == "defaults":
+        assert (gap, thres) == (DEFAULT_GAP, DEFAULT_THRES)
+        return full_ln(m)
+    if how == "gap_only":
+        assert thres == DEFAULT_THRES
+        return full_ln(m, gap)
+    if how == "thres_only":
+        assert gap == DEFAULT_GAP
+        return full_ln(m, ln_as_hit_thres=thres)
+    if how == "np":
+        w = lambda v: np.int64(v) if isinstance(v, int) else np.float64(v)
+        return full_ln(m, w(gap), w(thres))
+    if how == "pos_float":
+        return full_ln(m, float(gap), float(thres))
+    return full_ln(m, gap, thres)
+
+
+def _run_case(case):
     failed = []
-    gap, thres = Fraction(case["gap"]), Fraction(case["thres"])
     m = _build(case)
+    steps = [(case["gap"], case["thres"], case.get("call", "pos"), "first")]
+    for g, t, mode in case.get("then") or []:
+        steps.append((g, t, "pos", mode))
+    r = None
+    for gap, thres, how, mode in steps:
+        src = r if mode == "chain" else m      # "again": the same input object once more
+        found, r = _check_call(case, src, gap, thres, how, from_case=mode != "chain")
+        tag = {"first": "", "chain": "[second call, on the result of the first] ", "again": "[second call, on the same input object] "}[mode]
+        for what, d in found:
+            if what not in {w for w, _ in failed}:
+                failed.append((what, tag + d))
+        if r is None:
+            break
+    return failed
+
+
+def _single_row_reversed(case):
+    """The chart's only note sits in a one-row list that went through [::-1] (labels [0] as before, but pandas
+    keeps them as RangeIndex(0, -1, -1)) and the other note list is empty: a class of its own, see _check_call."""
+    lab = case.get("labels") or {}
+    h, l = case["hits"], case["holds"]
+    return (len(h) == 1 and not l and lab.get("hits") == "reversed") or (len(l) == 1 and not h and lab.get("holds") == "reversed")
+
+
+def _check_call(case, m, gap_arg, thres_arg, how, from_case=True):
+    """One real call on chart `m` against the statement; -> ([(what, detail)], result | None)."""
+    failed = []
+    gap, thres = Fraction(gap_arg), Fraction(thres_arg)
     before_notes = _notes_of(m)
     before_others = _snapshot_others(m)
     try:
-        r = full_ln(m, case["gap"], case["thres"])
+        r = _call(m, gap_arg, thres_arg, how)
     except Exception as ex:
-        return [("completes_for_every_game", f"full_ln raised {type(ex).__name__}: {ex}")]
+        # charts whose single note is in a reversed one-row list are kept apart, so that this clause stays exercised by all others
+        what = "completes_when_single_row_list_was_reversed" if (from_case and _single_row_reversed(case)) else "completes_for_every_game"
+        return [(what, f"full_ln raised {type(ex).__name__}: {ex}")], None
 
     # result list classes = the input's classes
     if type(r) is not type(m) or type(r.hits) is not type(m.hits) or type(r.holds) is not type(m.holds):
@@ -155,7 +253,7 @@ def _run_case(case):
         extra, missing = pos_out - pos_in, pos_in - pos_out
         what = "other_note_lists_stay_out_of_result" if case.get("extras") else "one_note_per_input_note"
         failed.append((what, f"extra (time, column): {[(float(t), c) for t, c in extra.elements()]}, missing: {[(float(t), c) for t, c in missing.elements()]}"))
-        return failed
+        return failed, r
 
     for c in sorted({c for _, c, _ in before_notes}):
         col_in = [(t, ln) for t, cc, ln in before_notes if cc == c]
@@ -170,7 +268,7 @@ def _run_case(case):
             what = "last_note_keeps_kind_and_length" if body_ok else "hold_ends_gap_before_next_or_hit"
             if case.get("extras"):
                 what = "other_note_lists_stay_out_of_result"
-            failed.append((what, f"column {c}: got {show(col_out)}, accepted {[show(a) for a in alts]}"))
+            failed.append((what, f"column {c} (gap {gap_arg}, threshold {thres_arg}, call {how}): got {show(col_out)}, accepted {[show(a) for a in alts]}"))
             break
 
     # no generated hold reaches the next note of its column (every hold that has a later note in its column is generated)
@@ -182,14 +280,26 @@ def _run_case(case):
             nxt = min(later)
             if t + ln > nxt or (gap > 0 and t + ln >= nxt):
                 what = "other_note_lists_stay_out_of_result" if case.get("extras") else "hold_stops_before_next_note"
-                failed.append((what, f"hold at {float(t)} column {c} length {float(ln)} vs next note at {float(nxt)}, gap {case['gap']}"))
+                failed.append((what, f"hold at {float(t)} column {c} length {float(ln)} vs next note at {float(nxt)}, gap {gap_arg}"))
                 break
-    return failed
+    return failed, r
 
 
 def _random_case(rng, game, n_notes):
-    grid = GRID_A if rng.random() < 0.7 else GRID_B
-    cols = rng.choice([[0, 1, 2], [0, 1, 2], [0, 1], [0]])           # fewer columns -> longer columns / stacks; unused ones are empty
+    u = rng.random()
+    ints = False
+    if u < 0.45:
+        grid = GRID_A
+    elif u < 0.65:
+        grid = GRID_B
+    elif u < 0.75:
+        grid = GRID_C
+    elif u < 0.87:
+        grid, n_notes = GRID_D, n_notes + rng.choice([0, 3, 6])            # long columns
+    else:
+        grid, ints = GRID_I, True
+    cols = rng.choice([[0, 1, 2], [0, 1, 2], [0, 1], [0], [0, 3, 6], [5]])   # fewer columns -> longer columns / stacks; unused ones (also in the middle) are empty
+    lengths = HOLD_LENGTHS_I if ints else HOLD_LENGTHS
     hits, holds = [], []
     for _ in range(n_notes):
         t, c = rng.choice(grid), rng.choice(cols)
@@ -198,10 +308,25 @@ def _random_case(rng, game, n_notes):
         if rng.random() < 0.5:
             hits.append([t, c])
         else:
-            holds.append([t, c, rng.choice(HOLD_LENGTHS)])
+            holds.append([t, c, rng.choice(lengths)])
     rng.shuffle(hits)
     rng.shuffle(holds)
-    case = dict(game=game, hits=hits, holds=holds, gap=rng.choice(SETTINGS), thres=rng.choice(SETTINGS))
+    settings = SETTINGS + SETTINGS_F if rng.random() < 0.3 else SETTINGS
+    case = dict(game=game, hits=hits, holds=holds, gap=rng.choice(settings), thres=rng.choice(settings))
+    if rng.random() < 0.3:      # how gap / threshold reach the function
+        how = rng.choice(CALLS)
+        if how in ("defaults", "thres_only"):
+            case["gap"] = DEFAULT_GAP
+        if how in ("defaults", "gap_only"):
+            case["thres"] = DEFAULT_THRES
+        case["call"] = how
+    if rng.random() < 0.35:     # row labels of each list the function receives
+        case["labels"] = {k: rng.choice(LABELS) for k in ("hits", "holds", "bpms", "svs") if rng.random() < 0.6}
+    if rng.random() < 0.25:     # shape of the tempo list and of the SV list
+        case["tempo"] = rng.choice(TEMPO)
+        case["svs"] = rng.choice(TEMPO)
+    if rng.random() < 0.15:     # a second call in the same process
+        case["then"] = [[rng.choice(SETTINGS), rng.choice(SETTINGS), rng.choice(["chain", "again"])]]
     if game == "sm" and rng.random() < 0.12:
         ex = {}
         kind = rng.choice(["mines", "rolls", "lifts", "fakes"])
@@ -227,6 +352,23 @@ def _features(case):
         f.add("empty_column")
     if case["hits"] and case["holds"]:
         f.add("mixed")
+    if notes and not case["hits"]:
+        f.add("holds_only")
+    if notes and not case["holds"]:
+        f.add("hits_only")
+    if any(ln == 0 for _, _, ln in case["holds"]):
+        f.add("zero_length_hold")
+    if notes and all(isinstance(t, int) for t, _ in notes):
+        f.add("int_columns")
+    if isinstance(case["gap"], float) or isinstance(case["thres"], float):
+        f.add("float_settings")
+    for k in ("call", "tempo"):
+        if case.get(k):
+            f.add(f"{k}={case[k]}")
+    for k, v in (case.get("labels") or {}).items():
+        f.add(f"labels[{k}]={v}")
+    for _, _, mode in case.get("then") or []:
+        f.add(f"then={mode}")
     return f
 
 
@@ -234,10 +376,15 @@ def _features(case):
 def full_ln_vs_statement(rep):
     rng = rep.rng
     N = rep.n(2400, 60000)
-    rep.bound = (f"up to {N} seeded charts: 0..6 notes on a 4-point time grid ({GRID_A} or {GRID_B}) x <= 3 columns x hit / hold (lengths {HOLD_LENGTHS}), "
-                 f"shuffled list order, 15% deliberately stacked notes, gap and threshold each in {SETTINGS}; classes osu, sm, bms, o2j, base Map (and quaver at 1/12); "
-                 "every chart carries two tempo points and rows in each other list of its game; 12% of the sm charts also carry a mine / roll / lift / fake")
-    rep.rule = "a case is one (game, hits, holds, gap, threshold); non-trivial when some column has >= 2 notes (a note with a next note exists)"
+    rep.bound = (f"up to {N} seeded charts: 0..6 notes on a 4-point time grid ({GRID_A} or {GRID_B}), 10% on very large / negative times {GRID_C}, 12% long columns (up to 12 notes on {GRID_D}), 13% all-int times and lengths {GRID_I}; "
+                 f"x <= 3 columns out of [0,1,2] / [0,1] / [0] / [0,3,6] / [5] x hit / hold (lengths {HOLD_LENGTHS}, incl. zero length), "
+                 f"shuffled list order, 15% deliberately stacked notes, gap and threshold each in {SETTINGS}, in 30% of the charts also in {SETTINGS_F}; "
+                 f"30% of the calls not positional ({', '.join(CALLS)}; left-out arguments are the documented defaults gap={DEFAULT_GAP}, ln_as_hit_thres={DEFAULT_THRES}); "
+                 f"35% of the charts with other row labels than 0..n-1 ({', '.join(LABELS)}) on hits / holds / tempo list / SV list independently; 25% with the tempo list and SV list {' / '.join(TEMPO)} instead of two rows; "
+                 "15% with a second call (on the first result, or on the same input object again), each call checked against the notes it was given; "
+                 "classes osu, sm, bms, o2j, base Map (and quaver at 1/12); "
+                 "every chart carries rows in each other list of its game unless its tempo list is empty; 12% of the sm charts also carry a mine / roll / lift / fake")
+    rep.rule = "a case is one (game, hits, holds, gap, threshold, call form, labels, tempo / SV shape, second call); non-trivial when some column has >= 2 notes (a note with a next note exists)"
     feats = Counter()
     weights = ["osu"] * 3 + ["sm"] * 3 + ["bms", "o2j", "base"] * 2 + ["qua"]
     for i in range(N):
@@ -251,7 +398,7 @@ def full_ln_vs_statement(rep):
             feats[f] += 1
         for what, d in _run_case(case):
             rep.fail(what, case, d)
-    rep.extra["feature_counts"] = dict(feats)
+    rep.extra["feature_counts"] = dict(sorted(feats.items()))
 
 
 @replayer("full_ln_vs_statement")
